@@ -73,6 +73,7 @@ def build_pool(ctx, optkeys, structkeys=()):
     add('str_empty', '""', pair=True)
     add('str_a', '"a"', benign=True, pair=True)
     add('str_64k', '("a" * 65536)')
+    add('str_cjk', '("\u6f22\u5b57" * 15)')          # 30 characters, 90 bytes: byte length and character count on different sides of the display limits
     add('str_json', '"json"')          # a string that names something (format, encoding-like): plausible string argument
     add('bin_badutf8', '([255, 254, 128, 0] | tobytes)', pair=True)
     add('bin_unaligned', '("ab" | tobits[3:13])', pair=True)
@@ -92,6 +93,9 @@ def build_pool(ctx, optkeys, structkeys=()):
     add('dv_struct', dv, pair=True)
     add('dv_json', '("[1,{\\"a\\":\\"b\\"}]" | json)')
     add('dv_leaf', '(%s | first(.. | select(type == "string")))' % dv)
+    add('dv_str_cjk', '("\\"" + ("\u6f22\U0001f600" * 12) + "\\"" | json)')      # a decode value that is a string of 2-, 3- and 4-byte characters
+    add('dv_struct_cjk', '([217, 90, ("\u6f22\u5b57" * 15 | tobytes)] | tobytes | msgpack)')      # a decoded struct with a string FIELD of 30 characters / 90 bytes
+    add('dv_obj_cjk', '("{\\"k\\":\\"" + ("\u00e9\u6f22" * 14) + "\\"}" | json)')
     # extended option objects (option arm only): one member each, so that one bad member is not masked by another
     ext_vals = [('neg1', '-1'), ('zero', '0'), ('three', '3'), ('e9', '1e9'), ('p64', '18446744073709551616'), ('half', '0.5'),
                 ('str', '"x"'), ('null', 'null'), ('true', 'true'), ('arr', '[]')]
@@ -520,6 +524,11 @@ def run(ctx):
             s = 'total:%s/%d:uncaught-exit:%s' % (ev['fn'], ev['arity'], re.sub(r'[^A-Za-z0-9_.:-]+', '_', ev['msg'])[:60])
             ctx.finding(s, '%s/%d on %s left the fq main loop with "%s" although `try` was around it' % (ev['fn'], ev['arity'], vals, ev['msg'][:120]),
                         dict(expr=ev['_expr'], job=ev['_job'], values=vals, outcome=ev['outcome'], msg=ev['msg']))
+            continue
+        if ev['outcome'] == 'fatal-oom' and any(re.search(r'(_e9|_p64|^opt_huge|^opt_depth_huge|^p31|^p63|^p64|^f1e308|^str_64k)$', v) for v in vals):
+            # the worker's address space limit (RLIMIT_AS) was hit by a call that was ASKED for output proportional to a huge count
+            # (a billion characters of indentation, ...): that is the harness's limit, not a fault of the function; counted, not judged
+            ctx.cov.setdefault('memory_limit_hit_by_huge_count_argument', []).append('%s/%d %s' % (ev['fn'], ev['arity'], vals))
             continue
         s, dep = fault_sig(ev)
         nfault[s] += 1
